@@ -130,7 +130,7 @@ def make_pipeline(spec, module='ref.family_gen'):
                'lazy': GeneratedDataLazy, 'list': list, 'str': str, 'int': int}[data]
         if data == 'mem':
             meta['data_class'] = InMemoryData
-        if 'const' in t:
+        if 'const' in t and data == 'mem':
             meta['ignore_return_type_mismatch'] = True
         in_args = [slug(i['target'] if i['ref'] in ('class', 'param_class') else i['target'].split(':')[-1])
                    for i in t.get('inputs', [])]
@@ -155,10 +155,32 @@ def _pv(v):
 
 def _make_run(name, pnames, data, access, in_args=(), const=False):
     if const:
+        ret = {'gen': f'(x for x in _CONST[{name!r}])', 'gen0': f'(x for x in _CONST[{name!r}])'}.get(data, f'_CONST[{name!r}]')
+        if data == 'lazy':
+            return f'''
+def run(self):
+    _RUNLOG.append((self.fullname, id(self)))
+    d = self.get_data_object()
+    d.set_value(lambda: (x for x in _CONST[{name!r}]))
+    return d
+'''
+        if data == 'dir':
+            return f'''
+def run(self):
+    _RUNLOG.append((self.fullname, id(self)))
+    d = self.get_data_object()
+    for _fn, _content in _CONST[{name!r}].items():
+        _p = d.dir / _fn
+        _p.parent.mkdir(parents=True, exist_ok=True)
+        _h = _p.open('w')
+        _h.write(_content)
+        _h.close()
+    return d
+'''
         return f'''
 def run(self):
     _RUNLOG.append((self.fullname, id(self)))
-    return _CONST[{name!r}]
+    return {ret}
 '''
     if access == 'args_inputs':
         args = ', '.join(['self'] + pnames + list(in_args))
